@@ -151,8 +151,14 @@ NOINST static void *worker_main(void *p) {
 	return NULL;
 }
 
+static atomic_int lib_down = 0;      /* the last start failed (the library has stopped itself): API steps other than start/stop are outside every property */
 NOINST static int exec_step(int argc, char **argv) {
 	const char *op = argv[0];
+	if (lib_down && (!strcmp(op, "call") || !strcmp(op, "get") || !strcmp(op, "snap") || !strcmp(op, "keep") || !strcmp(op, "flush") || !strcmp(op, "readm") || !strcmp(op, "reade") || !strcmp(op, "drain"))) {
+		static atomic_int told = 0;
+		if (!atomic_exchange(&told, 1)) ev("\"e\":\"skipped_not_running\",\"step\":\"%s\"", op);
+		return 0;
+	}
 	if (!strcmp(op, "call") && argc >= 2) {
 		char res[1200];
 		hx_curcall = argv[1];
@@ -189,7 +195,7 @@ NOINST static int exec_step(int argc, char **argv) {
 		bus_push_raw(it, n); free(it);
 		return 0;
 	}
-	if (!strcmp(op, "quiesce")) { int r = bus_wait_quiescent(argc >= 2 ? atoi(argv[1]) : 5000); ev("\"e\":\"quiet\",\"timeout\":%d", r); return 0; }
+	if (!strcmp(op, "quiesce")) { int r = bus_wait_quiescent(argc >= 2 ? atoi(argv[1]) : 30000); ev("\"e\":\"quiet\",\"timeout\":%d", r); return 0; }
 	if (!strcmp(op, "readm")) { drain_queue("msg", bidib_read_message, 1); return 0; }
 	if (!strcmp(op, "reade")) { drain_queue("err", bidib_read_error_message, 1); return 0; }
 	if (!strcmp(op, "drain")) {
@@ -283,7 +289,7 @@ NOINST static int exec_main_step(int argc, char **argv, FILE *f) {
 		ev("\"e\":\"ret\",\"f\":\"bidib_start_pointer\",\"r\":%d,\"live_threads\":%d,\"heap\":%zu,\"vt\":%lld", rc, mon_live_lib_threads(), heap_bytes(), (long long)vt_usec);
 		check_balance("bidib_start_pointer");
 		hx_curcall = "-";
-		if (rc == 0) { session_running = 1; mon_armed = 1; }
+		if (rc == 0) { session_running = 1; mon_armed = 1; lib_down = 0; } else if (mon_live_lib_threads() == 0) lib_down = 1;
 		return 0;
 	}
 	if (!strcmp(op, "start_serial") && argc >= 4) {
@@ -305,6 +311,7 @@ NOINST static int exec_main_step(int argc, char **argv, FILE *f) {
 		session_running = 0;
 		return 0;
 	}
+	if (!strcmp(op, "reset") && lib_down) { ev("\"e\":\"skipped_not_running\",\"step\":\"reset\""); return 0; }
 	if (!strcmp(op, "reset")) {
 		/* README: nothing may run concurrently with bidib_send_sys_reset; contract monitor disarmed meanwhile */
 		int was = mon_armed; mon_armed = 0;
